@@ -415,6 +415,11 @@ bool Instance::configure_tx_txin() {
         uint8_t witprogver; // 0 for pre-taproot, 1 for taproot/tapscript; note that SigVersion has 2 values for taproot (2) vs tapscript (3)
         if (scriptSig.size() > 0) {
             btc_segwit_logf("script sig non-empty; embedded P2SH (extracting payload)\n");
+            // only the exact pay-to-script-hash template (HASH160 <20 bytes> EQUAL, nothing else) wraps a witness program
+            if (!scriptPubKey.IsPayToScriptHash()) {
+                fprintf(stderr, "the input has a witness and a sig script, but the script pub key is not pay-to-script-hash (witness unexpected): %s\n", HexStr(scriptPubKey).c_str());
+                return false;
+            }
             // Embedded in P2SH -- payload extraction required
             CScript::const_iterator it2 = scriptSig.begin();
             if (!scriptSig.GetOp(it2, opcode, pushval)) {
